@@ -27,6 +27,7 @@ import (
 	"path/filepath"
 	"strconv"
 	"strings"
+	"sync"
 
 	"golang.org/x/crypto/pbkdf2"
 	"golang.org/x/text/unicode/norm"
@@ -114,15 +115,25 @@ func verifAssume(c bool) {
 	}
 }
 
+var verifMu sync.Mutex
+
 func verifAssert(c bool, label string) {
 	if !c {
+		verifMu.Lock()
 		verifRes.Failures = append(verifRes.Failures, label)
+		verifMu.Unlock()
 	}
 }
 
-func verifReach(label string) { verifRes.Reached = append(verifRes.Reached, label) }
+func verifReach(label string) {
+	verifMu.Lock()
+	verifRes.Reached = append(verifRes.Reached, label)
+	verifMu.Unlock()
+}
 
 func verifObserve(name string, v string) {
+	verifMu.Lock()
+	defer verifMu.Unlock()
 	if verifRes.Observed == nil {
 		verifRes.Observed = map[string]string{}
 	}
@@ -919,32 +930,199 @@ func H_C13_seed() {
 }
 
 // ---------------------------------------------------------------------------
-// C12: one exported call per thread, used by the race encoder (events are extracted per op)
+// C12: concurrency. verifC12Op is one exported call with its own reference assertion.
+// H_C12_pair runs two of them in sequence under the engine, which extracts the shared-memory
+// events of each and decides with the solver whether the two calls, run concurrently from a cold
+// start, can have an unordered conflicting access pair (DESIGN §7 C12). H_C12_race is the native
+// replay: the same two calls in two goroutines released together, built with -race.
 
-func H_C12_op(op int, lg Language) {
-	switch op {
-	case 0:
-		_ = CheckMnemonic(verifPre("raw", verifSentence12(lg)), lg)
-	case 1:
-		_ = IsMnemonicValid(verifPre("raw", verifSentence12(lg)), lg)
-	case 2:
-		_, _ = NewMnemonicByEntropy(verifBytes("ent", 16), lg)
-	case 3:
-		_, _ = NewMnemonic(12, lg)
-	case 4:
-		_ = MnemonicToSeed(verifOpaque("m"), verifOpaque("p"))
-	case 5:
-		_ = lg.String()
+func verifMark(label string) {}
+
+func verifC12Op(op int, lg Language, sfx string, sym int) {
+	word := func(i int) int {
+		if sym != 0 {
+			return verifIntRange("w"+sfx+itoa(i), 0, 2047)
+		}
+		return (611*i + 97*len(sfx) + 3*int(sfx[0])) % 2048
 	}
+	switch op {
+	case 0, 1: // validation of a sentence of canonical words
+		idx := make([]int, 12)
+		words := make([]string, 12)
+		for i := range idx {
+			idx[i] = word(i)
+			words[i] = verifGolden(lg, idx[i])
+		}
+		m := strings.Join(words, " ")
+		valid := specValid(idx)
+		if op == 0 {
+			err := CheckMnemonic(m, lg)
+			verifAssert((err == nil) == valid, "concurrent-check-equals-reference-"+sfx)
+		} else {
+			verifAssert(IsMnemonicValid(m, lg) == valid, "concurrent-isvalid-equals-reference-"+sfx)
+		}
+	case 2:
+		var ent []byte
+		if sym != 0 {
+			ent = verifBytes("e"+sfx, 16)
+		} else {
+			ent = []byte{0, 1, 2, 3, 250, 251, 252, 253, 9, 8, 7, 6, 5, 4, sfx[0], 255}
+		}
+		got, err := NewMnemonicByEntropy(ent, lg)
+		verifAssert(verifAnd(err == nil, got == specSentence(lg, ent)), "concurrent-encode-equals-reference-"+sfx)
+	case 3:
+		got, err := NewMnemonic(12, lg)
+		verifAssert(verifAnd(err == nil, len(strings.Split(got, specSep(lg))) == 12), "concurrent-newmnemonic-ok-"+sfx)
+	case 4:
+		m, p := "légal winner thank year wave sausage worth useful legal winner thank yellow"+sfx, "ＴＲＥＺＯＲ"
+		if sym != 0 {
+			m = verifOpaque("m" + sfx)
+			p = verifOpaque("p" + sfx)
+		}
+		verifAssert(verifBytesEq(MnemonicToSeed(m, p), verifSeedSpec(verifNFKD(m), "mnemonic"+verifNFKD(p))), "concurrent-seed-equals-reference-"+sfx)
+	case 5:
+		verifAssert(lg.String() == verifLangNames[int(lg)], "concurrent-name-"+sfx)
+	case 6: // unknown first word
+		words := make([]string, 12)
+		words[0] = "zzunknown" + sfx
+		if sym != 0 {
+			words[0] = verifToken("t"+sfx, lg)
+			_, isM := verifGoldenIndex(lg, words[0])
+			verifAssume(!isM)
+		}
+		for i := 1; i < 12; i++ {
+			words[i] = verifGolden(lg, word(i))
+		}
+		err := CheckMnemonic(strings.Join(words, " "), lg)
+		verifAssert(verifAnd(err != nil, verifAnd(!errors.Is(err, ErrWordLen), !errors.Is(err, ErrChecksumIncorrect))), "concurrent-unknown-word-rejected-"+sfx)
+	case 7: // wrong count
+		words := make([]string, 11)
+		for i := range words {
+			words[i] = verifGolden(lg, word(i))
+		}
+		verifAssert(errors.Is(CheckMnemonic(strings.Join(words, " "), lg), ErrWordLen), "concurrent-count-rejected-"+sfx)
+	}
+}
+
+func H_C12_pair(opA int, lgA Language, opB int, lgB Language, sym int) {
+	verifMark("A")
+	verifC12Op(opA, lgA, "a", sym)
+	verifMark("B")
+	verifC12Op(opB, lgB, "b", sym)
+	verifMark("end")
 	verifReach("end")
 }
 
-func verifSentence12(lg Language) string {
-	toks := make([]string, 12)
-	for i := range toks {
-		toks[i] = verifToken("t"+itoa(i), lg)
+func H_C12_race(opA int, lgA Language, opB int, lgB Language, sym int) {
+	verifGoldenList(int(lgA))
+	verifGoldenList(int(lgB))
+	var wg sync.WaitGroup
+	start := make(chan struct{})
+	run := func(op int, lg Language, sfx string) {
+		defer wg.Done()
+		<-start
+		verifC12Op(op, lg, sfx, sym)
 	}
-	return strings.Join(toks, " ")
+	wg.Add(2)
+	go run(opA, lgA, "a")
+	go run(opB, lgB, "b")
+	close(start)
+	wg.Wait()
+	verifReach("end")
+}
+
+// ---------------------------------------------------------------------------
+// selfcheck: reference vectors through the reference (spec*), the real functions and — when run
+// by the engine — the encoding. Everything is concrete; the engine's predicted observations are
+// compared with the native ones (translator validation), and the reference itself is checked
+// against the published Trezor vectors.
+
+func verifHex(s string) []byte {
+	out := make([]byte, len(s)/2)
+	for i := range out {
+		v, _ := strconv.ParseUint(s[2*i:2*i+2], 16, 8)
+		out[i] = byte(v)
+	}
+	return out
+}
+
+func verifToHex(b []byte) string {
+	const digits = "0123456789abcdef"
+	out := make([]byte, 0, 2*len(b))
+	for _, c := range b {
+		out = append(out, digits[c>>4], digits[c&15])
+	}
+	return string(out)
+}
+
+func H_selfcheck() {
+	type tv struct{ ent, words string }
+	trezor := []tv{
+		{"00000000000000000000000000000000", "abandon abandon abandon abandon abandon abandon abandon abandon abandon abandon abandon about"},
+		{"7f7f7f7f7f7f7f7f7f7f7f7f7f7f7f7f", "legal winner thank year wave sausage worth useful legal winner thank yellow"},
+		{"80808080808080808080808080808080", "letter advice cage absurd amount doctor acoustic avoid letter advice cage above"},
+		{"ffffffffffffffffffffffffffffffff", "zoo zoo zoo zoo zoo zoo zoo zoo zoo zoo zoo wrong"},
+		{"000000000000000000000000000000000000000000000000", "abandon abandon abandon abandon abandon abandon abandon abandon abandon abandon abandon abandon abandon abandon abandon abandon abandon agent"},
+		{"0000000000000000000000000000000000000000000000000000000000000000", "abandon abandon abandon abandon abandon abandon abandon abandon abandon abandon abandon abandon abandon abandon abandon abandon abandon abandon abandon abandon abandon abandon abandon art"},
+		{"ffffffffffffffffffffffffffffffffffffffffffffffffffffffffffffffff", "zoo zoo zoo zoo zoo zoo zoo zoo zoo zoo zoo zoo zoo zoo zoo zoo zoo zoo zoo zoo zoo zoo zoo vote"},
+	}
+	for i, v := range trezor {
+		if v.words == "" {
+			continue
+		}
+		ent := verifHex(v.ent)
+		verifAssert(specSentence(English, ent) == v.words, "reference-matches-trezor-vector-"+itoa(i))
+		got, err := NewMnemonicByEntropy(ent, English)
+		verifObserve("enc"+itoa(i), got)
+		verifAssert(err == nil, "enc-err-"+itoa(i))
+		e := CheckMnemonic(v.words, English)
+		verifObserveInt("chk"+itoa(i), verifVerdict(e))
+		idx := make([]int, 0, 24)
+		for _, w := range strings.Split(v.words, " ") {
+			j, ok := verifGoldenIndex(English, w)
+			verifAssert(ok, "trezor-word-in-golden-list")
+			idx = append(idx, j)
+		}
+		verifAssert(specValid(idx), "reference-validates-trezor-vector-"+itoa(i))
+		dec, _ := specDecode(idx)
+		verifAssert(verifBytesEq(dec, ent), "reference-decodes-trezor-vector-"+itoa(i))
+	}
+	// the repository's own vectors
+	sentences := []struct {
+		m  string
+		lg Language
+	}{
+		{"check fiscal fit sword unlock rough lottery tool sting pluck bulb random", English},
+		{"rich soon pool legal busy add couch tower goose security raven anger", English},
+		{"rich soon pool legal busy add couch tower goose security raven", English},
+		{"rich soon pool legal busy add couch tower goose security women", English},
+		{"rich soon pool legal busy add couch tower goose security base", English},
+		{"氮 冠 锋 枪 做 到 容 枯 获 槽 弧 部", ChineseSimplified},
+		{"氮 冠 鋒 槍 做 到 容 枯 獲 槽 弧 部", ChineseTraditional},
+		{"ねほりはほり　ひらがな　とさか　そつう　おうじ　あてな　きくらげ　みもと　してつ　ぱそこん　にってい　いこつ", Japanese},
+		{"posible ruptura ozono ligero bobina acto chuleta tetera gol realidad pez alerta", Spanish},
+		{"pieuvre revivre nuptial implorer blinder accroche chute syntaxe félin promener parcelle aimable", French},
+		{"risultato siccome prenotare mimosa bosco adottare continuo tifare ignaro sbloccato residente alticcio", Italian},
+		{"전망 차선 이전 실장 기간 간판 대접 판단 생명 존재 잠깐 건축", Korean},
+		{"ivory disorder hawk slot oil promote north fat zebra useless device cargo", English},
+	}
+	for i, sv := range sentences {
+		verifObserveInt("sent"+itoa(i), verifVerdict(CheckMnemonic(sv.m, sv.lg)))
+	}
+	for l := 0; l < 10; l++ {
+		got, _ := NewMnemonicByEntropy(verifHex("1578ce68fa99785d7f4229714472f207"), Language(l))
+		verifObserve("lang"+itoa(l), got)
+		verifAssert(got == specSentence(Language(l), verifHex("1578ce68fa99785d7f4229714472f207")), "reference-agrees-lang-"+itoa(l))
+		verifObserve("name"+itoa(l), Language(l).String())
+	}
+	// seeds
+	seed := MnemonicToSeed("abandon abandon abandon abandon abandon abandon abandon abandon abandon abandon abandon about", "TREZOR")
+	verifObserve("seed", verifToHex(seed))
+	verifAssert(verifToHex(verifSeedSpec(verifNFKD("abandon abandon abandon abandon abandon abandon abandon abandon abandon abandon abandon about"), "mnemonic"+verifNFKD("TREZOR"))) ==
+		"c55257c360c07c72029aebc1b53c05ed0362ada38ead3e3e9efa3708e53495531f09a6987599d18264c1e1c92f2cf141630c7a3c4ab7c81b2f001698e7463b04", "reference-seed-matches-trezor")
+	seedJ := MnemonicToSeed("ねほりはほり　ひらがな　とさか　そつう　おうじ　あてな　きくらげ　みもと　してつ　ぱそこん　にってい　いこつ", "㍍ガバヴァぱばぐゞちぢ十人十色")
+	verifObserve("seedj", verifToHex(seedJ))
+	verifReach("end")
 }
 
 // ---------------------------------------------------------------------------
@@ -969,6 +1147,7 @@ var verifHarnesses = map[string]func(a []int64){
 	"H_C09_entropy_any": func(a []int64) { H_C09_entropy_any(Language(a[0])) },
 	"H_C09_count":       func(a []int64) { H_C09_count(Language(a[0])) },
 	"H_C16":             func(a []int64) { H_C16() },
+	"H_selfcheck":       func(a []int64) { H_selfcheck() },
 	"H_C14_String":      func(a []int64) { H_C14_String() },
 	"H_C14_Entropy":     func(a []int64) { H_C14_Entropy(int(a[0])) },
 	"H_C14_New":         func(a []int64) { H_C14_New(int(a[0]), int(a[1])) },
@@ -978,7 +1157,8 @@ var verifHarnesses = map[string]func(a []int64){
 	"H_C13_entropy":     func(a []int64) { H_C13_entropy(Language(a[0]), int(a[1]), int(a[2])) },
 	"H_C13_check":       func(a []int64) { H_C13_check(Language(a[0]), int(a[1]), int(a[2])) },
 	"H_C13_seed":        func(a []int64) { H_C13_seed() },
-	"H_C12_op":          func(a []int64) { H_C12_op(int(a[0]), Language(a[1])) },
+	"H_C12_pair":        func(a []int64) { H_C12_pair(int(a[0]), Language(a[1]), int(a[2]), Language(a[3]), int(a[4])) },
+	"H_C12_race":        func(a []int64) { H_C12_race(int(a[0]), Language(a[1]), int(a[2]), Language(a[3]), int(a[4])) },
 }
 
 // VerifRun executes one vector natively and returns what happened.
